@@ -185,3 +185,41 @@ pub mod c06_remainder_moved {}
 /// let _ = SLOT.get();
 /// ```
 pub mod c20_slot_api {}
+
+/// C04 — the guard of an entered span frame cannot be released on another thread (its exit swaps the *releasing* thread's
+/// slot, so the entering thread would keep the span's ids as ambient).
+///
+/// ```compile_fail,E0277
+/// fn assert_send<T: Send>(_: &T) {}
+/// let ctxt = emit::platform::thread_local_ctxt::ThreadLocalCtxt::new();
+/// let mut frame = emit::Frame::push(&ctxt, emit::span::SpanCtxt::new(None, None, None));
+/// let guard = frame.enter();
+/// assert_send(&guard);
+/// ```
+///
+/// twin: the un-entered frame is what crosses threads.
+/// ```no_run
+/// fn assert_send<T: Send>(_: &T) {}
+/// let ctxt = emit::platform::thread_local_ctxt::ThreadLocalCtxt::new();
+/// let frame = emit::Frame::push(&ctxt, emit::span::SpanCtxt::new(None, None, None));
+/// assert_send(&frame);
+/// ```
+pub mod c04_enter_guard_not_send {}
+
+/// C18 — the guard of an entered traceparent frame cannot be released on another thread (the previous traceparent is
+/// restored on the thread that drops the guard).
+///
+/// ```compile_fail,E0277
+/// fn assert_send<T: Send>(_: &T) {}
+/// let mut frame = emit_traceparent::Traceparent::current().push();
+/// let guard = frame.enter();
+/// assert_send(&guard);
+/// ```
+///
+/// twin: the un-entered frame may be sent.
+/// ```no_run
+/// fn assert_send<T: Send>(_: &T) {}
+/// let frame = emit_traceparent::Traceparent::current().push();
+/// assert_send(&frame);
+/// ```
+pub mod c18_enter_guard_not_send {}
